@@ -152,4 +152,263 @@ def gmapFromPandas (f : Frame α) (u : Units) : Except Err (GMap α) := do
 
 end gmap
 
+/-! ### round 2: coancestry (wide), extended genetic map, model dictionaries, variance matrix (long) -/
+
+/-- `pandas.DataFrame(array, columns = names)` / `pandas.concat([...], axis = 1)`: columns side by
+    side, no dictionary semantics (duplicate names stay) -/
+def sideBySide {α} (a b : Frame α) : Frame α := a ++ b
+
+/-- `df[name].to_numpy(dtype = float)` -/
+def needVals {α} (f : Frame α) (k : Name) : Except Err (List α) :=
+  match lookupCol f k with
+  | some (.vals l) => pure l
+  | some _ => throw .type
+  | none => throw .missing
+
+/-- `df[name].to_numpy(dtype = object)` of a label column -/
+def needStrs {α} (f : Frame α) (k : String) : Except Err (List String) :=
+  match lookupCol f (.s k) with
+  | some (.strs l) => pure l
+  | some _ => throw .type
+  | none => throw .missing
+
+/-- rows of a matrix given by its columns -/
+def rowsOf {α} [Inhabited α] (nrow : Nat) (cols : List (List α)) : List (List α) :=
+  (List.range nrow).map (fun i => cols.map (fun c => c.getD i default))
+
+/-! #### DenseCoancestryMatrix.to_pandas (l.552) / from_pandas (l.790), `taxa = "all"` -/
+
+structure CMat (α : Type) where
+  mat : List (List α)            -- n rows of n values
+  taxa : Option (List String)
+  taxa_grp : Option (List Int)
+  deriving Repr, DecidableEq
+
+section cmat
+variable {α : Type} [Inhabited α]
+
+/-- the names the value columns get: the taxa, or "0", "1", … when there are none -/
+def cmTaxaNames (c : CMat α) : List String :=
+  match c.taxa with
+  | some l => l
+  | none => (List.range c.mat.length).map (fun i => toString i)
+
+def cmToPandas (c : CMat α) (taxaCol : String) (taxaGrpCol : Option String) : Frame α :=
+  let names := cmTaxaNames c
+  let labels : Frame α := [(Name.s taxaCol, Col.strs names)] ++
+    (match taxaGrpCol with
+     | some g => [(Name.s g, match c.taxa_grp with | some l => Col.ints l | none => Col.nones c.mat.length)]
+     | none => [])
+  let values : Frame α := names.zipIdx.map (fun ni => (Name.s ni.1, Col.vals (c.mat.map (fun r => r.getD ni.2 default))))
+  sideBySide labels values
+
+/-- taxa group column: all-NA ⇒ treated as absent -/
+def readGrpNA (f : Frame α) : Option String → Except Err (Option (List Int))
+  | none => pure none
+  | some g =>
+    match lookupCol f (.s g) with
+    | some (.ints l) => pure (some l)
+    | some (.nones _) => pure none
+    | some _ => throw .type
+    | none => throw .missing
+
+def cmFromPandas (f : Frame α) (taxaCol : String) (taxaGrpCol : Option String) : Except Err (CMat α) := do
+  let taxa ← needStrs f taxaCol
+  let grp ← readGrpNA f taxaGrpCol
+  -- colix = [df.columns.get_loc(str(e)) for e in taxa]; mat = df.iloc[rowix, colix]
+  let cols ← taxa.mapM (fun t => needVals f (.s t))
+  pure ⟨rowsOf taxa.length cols, some taxa, grp⟩
+
+end cmat
+
+/-! #### ExtendedGeneticMap.to_pandas (l.1417) / from_pandas (l.1600) -/
+
+structure EMap (α : Type) where
+  chrgrp : List Int
+  phypos : List Int
+  stop : List Int
+  genpos : List α
+  name : Option (List String)
+  fncode : Option (List String)
+  deriving Repr, DecidableEq
+
+section emap
+variable {α : Type} [Mul α] [Div α] [OfNat α 100] [OfNat α 1]
+
+def optStrCol {α} (n : Nat) : Option (List String) → Col α
+  | some l => .strs l
+  | none => .nones n
+
+def emapToPandas (m : EMap α) (u : Units) : Frame α :=
+  mkFrame [(.s "chr", .ints m.chrgrp), (.s "pos", .ints m.phypos), (.s "stop", .ints m.stop),
+           (.s "cM", .vals (match u with | .M => m.genpos | .cM => m.genpos.map (fun x => (100 : α) * x))),
+           (.s "name", optStrCol m.chrgrp.length m.name), (.s "fncode", optStrCol m.chrgrp.length m.fncode)]
+
+def needInts {α} (f : Frame α) (k : String) : Except Err (List Int) :=
+  match lookupCol f (.s k) with | some (.ints l) => pure l | some _ => throw .type | none => throw .missing
+
+/-- `from_pandas(…, vrnt_name_col, vrnt_fncode_col, vrnt_genpos_units = u)`: the two label columns
+    are read only when their column argument is given -/
+def emapFromPandas (f : Frame α) (u : Units) (nameCol fncodeCol : Bool) : Except Err (EMap α) := do
+  let chr ← needInts f "chr"
+  let pos ← needInts f "pos"
+  let stop ← needInts f "stop"
+  let gen ← needVals f (.s "cM")
+  let name ← if nameCol then readStrCol f (some "name") else pure none
+  let fn ← if fncodeCol then readStrCol f (some "fncode") else pure none
+  pure ⟨chr, pos, stop, match u with | .M => gen | .cM => gen.map (fun x => ((1 : α) / 100) * x), name, fn⟩
+
+end emap
+
+/-! #### Dense*LinearGenomicModel.to_pandas_dict / from_pandas_dict: one frame per coefficient block -/
+
+/-- `pandas.DataFrame(block, columns = trait_cols)`; a block is a list of rows -/
+def blockToFrame {α} [Inhabited α] (names : List Name) (block : List (List α)) : Frame α :=
+  names.zipIdx.map (fun ni => (ni.1, Col.vals (block.map (fun r => r.getD ni.2 default))))
+
+/-- `df.iloc[:, [get_loc(e) for e in trait]].to_numpy(float)` with `nrow` rows -/
+def blockFromFrame {α} [Inhabited α] (f : Frame α) (names : List Name) (nrow : Nat) : Except Err (List (List α)) := do
+  let cols ← names.mapM (fun t => needVals f t)
+  pure (rowsOf nrow cols)
+
+/-- the blocks of a linear genomic model (`beta`, `u_misc`, `u_a`[, `u_d`]) and its trait names -/
+structure LinMod (α : Type) where
+  blocks : List (String × List (List α))
+  trait : Option (List String)
+  deriving Repr, DecidableEq
+
+def lmTraitNames {α} (m : LinMod α) (t : Nat) : List Name :=
+  match m.trait with
+  | some l => l.map Name.s
+  | none => (List.range t).map Name.i
+
+def lmToPandasDict {α} [Inhabited α] (m : LinMod α) (t : Nat) : List (String × Frame α) :=
+  m.blocks.map (fun kb => (kb.1, blockToFrame (lmTraitNames m t) kb.2))
+
+/-- `trait_cols = "infer"`: the trait names are the column labels of the `beta` (first) frame -/
+def firstNames {α} (d : List (String × Frame α)) : List Name :=
+  match d with
+  | (_, f) :: _ => f.map (·.1)
+  | [] => []
+
+def lmFromPandasDict {α} [Inhabited α] (d : List (String × Frame α)) (nrows : List Nat) :
+    Except Err (List (String × List (List α)) × List Name) := do
+  let blocks ← (d.zip nrows).mapM (fun dn => do
+    let b ← blockFromFrame dn.1.2 (firstNames d) dn.2
+    pure (dn.1.1, b))
+  pure (blocks, firstNames d)
+
+/-! #### DenseTwoWayDHAdditiveGeneticVarianceMatrix.to_pandas (l.138) / from_pandas (l.336): long layout -/
+
+/-- one row of the long frame -/
+structure VRow (α : Type) where
+  female : String
+  femaleGrp : Option Int
+  male : String
+  maleGrp : Option Int
+  trait : String
+  variance : α
+  deriving Repr, DecidableEq
+
+structure VMat (α : Type) where
+  mat : List (List (List α))     -- n × n × t
+  taxa : List String
+  taxa_grp : Option (List Int)
+  trait : List String
+  deriving Repr, DecidableEq
+
+/-- what `from_pandas` builds: cells that no row addresses stay NaN (`none`) -/
+structure VRead (α : Type) where
+  mat : List (List (List (Option α)))
+  taxa : List String
+  taxa_grp : Option (List Int)
+  trait : List String
+  deriving Repr, DecidableEq
+
+/-- insert into a strictly increasing list, keeping it strictly increasing -/
+def insUniq (a : String) : List String → List String
+  | [] => [a]
+  | b :: l => if a < b then a :: b :: l else if a = b then b :: l else b :: insUniq a l
+
+/-- `numpy.unique` / `numpy.union1d` on label arrays: sorted, duplicate-free -/
+def sortUniq (l : List String) : List String := l.foldr insUniq []
+
+section vmat
+variable {α : Type} [Inhabited α]
+
+/-- `flattenix(mat)`: every cell in C order with its three indices -/
+def vmToPandas (v : VMat α) (withGrp : Bool) : List (VRow α) :=
+  let n := v.taxa.length
+  let grpAt (i : Nat) : Option Int :=
+    if withGrp then (match v.taxa_grp with | some g => some (g.getD i 0) | none => none) else none
+  (List.range n).flatMap (fun i => (List.range n).flatMap (fun j => (List.range v.trait.length).map (fun k =>
+    ⟨v.taxa.getD i "", grpAt i, v.taxa.getD j "", grpAt j, v.trait.getD k "",
+     ((v.mat.getD i []).getD j []).getD k default⟩)))
+
+/-- taxa_grp of a taxon: the group of the first row in which it is the female, overridden by the
+    group of the first row in which it is the male -/
+def vmGrpOf (rows : List (VRow α)) (t : String) : Int :=
+  match rows.find? (fun r => r.male == t) with
+  | some r => r.maleGrp.getD 0
+  | none => match rows.find? (fun r => r.female == t) with
+    | some r => r.femaleGrp.getD 0
+    | none => 0
+
+/-- `mat[femaleix, maleix, traitix] = variance`: the last row addressing a cell wins -/
+def vmCell (rows : List (VRow α)) (a b c : String) : Option α :=
+  (rows.reverse.find? (fun r => r.female == a && r.male == b && r.trait == c)).map (·.variance)
+
+def vmFromPandas (rows : List (VRow α)) (withGrp : Bool) : Except Err (VRead α) :=
+  -- `to_numpy(dtype = int)` on a group column of `None`
+  if withGrp && rows.any (fun r => r.femaleGrp.isNone || r.maleGrp.isNone) then throw .type else
+  let taxa := sortUniq (rows.map (·.female) ++ rows.map (·.male))
+  let trait := sortUniq (rows.map (·.trait))
+  pure ⟨taxa.map (fun a => taxa.map (fun b => trait.map (fun c => vmCell rows a b c))), taxa,
+   if withGrp then some (taxa.map (vmGrpOf rows)) else none, trait⟩
+
+end vmat
+
+/-! ### CSV text (`DataFrame.to_csv(index = False)` / `pandas.read_csv(header = 0)`)
+
+The printing and parsing of cells is *not* modelled: cell texts are an abstract type `σ` (in pandas:
+strings) and printing / parsing an abstract `Dialect` whose laws
+(`Lemmas/StoreFrameLemmas2.lean: Lawful`) are the trusted contract of pandas' CSV code:
+a column of printed floats (ints) is typed float (int) and parses back to the same values
+(`repr` / shortest round-trip printing), a column of label-safe strings stays a string column,
+a column of `None` is written as empty cells and read as all-NA. -/
+
+structure Dialect (σ α : Type) where
+  /-- text of a float cell / an integer cell / a string cell; the empty cell -/
+  showVal : α → σ
+  showInt : Int → σ
+  showStr : String → σ
+  na : σ
+  /-- read_csv's type inference + parsing of one column of cells -/
+  parse : List σ → Col α
+
+def nameText : Name → String
+  | .s v => v
+  | .i v => toString v
+
+def printCol {σ α} (D : Dialect σ α) : Col α → List σ
+  | .vals l => l.map D.showVal
+  | .ints l => l.map D.showInt
+  | .strs l => l.map D.showStr
+  | .nones n => List.replicate n D.na
+
+/-- header line and `n` data lines, cell by cell -/
+def csvWrite {σ α} (D : Dialect σ α) (f : Frame α) (n : Nat) : List String × List (List σ) :=
+  (f.map (fun e => nameText e.1),
+   (List.range n).map (fun i => (f.map (fun e => printCol D e.2)).map (fun c => c.getD i D.na)))
+
+/-- every header cell names a column (always a string), every column is typed and parsed as a whole -/
+def csvRead {σ α} (D : Dialect σ α) (t : List String × List (List σ)) : Frame α :=
+  (List.range t.1.length).map (fun j => (Name.s (t.1.getD j ""), D.parse (t.2.map (fun r => r.getD j D.na))))
+
+def colLen {α} : Col α → Nat
+  | .vals l => l.length
+  | .ints l => l.length
+  | .strs l => l.length
+  | .nones n => n
+
 end StoreFrame
